@@ -116,42 +116,85 @@ end
 theorem normalizeList_isEmpty (qs : List Q) : (normalizeList qs).isEmpty = qs.isEmpty := by
   cases qs <;> rfl
 
+/-- Hypothesis about the empty term: the tree has no exclusive open start where it matters
+    (`WM.Clean.emptyOk`), or no document of the index holds the empty term. -/
+def EOk (env : Env) (q : Q) : Prop := emptyOk q = true ∨ ∀ d ∈ env.index, d.NoEmpty
+def EOkList (env : Env) (qs : List Q) : Prop := emptyOkList qs = true ∨ ∀ d ∈ env.index, d.NoEmpty
+
+theorem LOk_of_all_rangeOk {d : Doc} {l : List Q} (h : l.all rangeOk = true) : LOk d l := by
+  intro s hs r hr
+  have := List.all_eq_true.mp h s hs
+  unfold rangeOk at this
+  rw [hr] at this
+  simp only at this
+  left
+  unfold Rng.openExcl
+  cases h : (r.lox && (r.lo == none || r.lo == some []))
+  · rfl
+  · rw [h] at this; exact absurd this (by simp)
+
 mutual
-theorem normalize_sat_aux (env : Env) (hidx : ∀ d ∈ env.index, d.Plain) :
-    ∀ (q : Q), clean q = true → ∀ d ∈ env.index, sat env (normalize q) d = sat env q d
-  | .null, _, _, _ => rfl
-  | .every _ _, _, _, _ => rfl
-  | .term _ _ _, _, _, _ => rfl
-  | .pre _ _ _ _, _, _, _ => rfl
-  | .wild f t b c, _, d, hd => by
-    simp only [normalize]; exact wildNormalize_sat env f t b c d (hidx d hd)
-  | .multi _ _ _ _ _, _, _, _ => rfl
-  | .range f lo hi lx hx b c, _, d, hd => by
-    simp only [normalize]; exact rngNormalize_sat env _ d (hidx d hd)
-  | .phrase f ws s b, _, d, _ => by
+theorem normalize_sat_aux (env : Env) (hidx : ∀ d ∈ env.index, d.BelowMax) :
+    ∀ (q : Q), clean q = true → EOk env q → ∀ d ∈ env.index, sat env (normalize q) d = sat env q d
+  | .null, _, _, _, _ => rfl
+  | .every _ _, _, _, _, _ => rfl
+  | .term _ _ _, _, _, _, _ => rfl
+  | .pre _ _ _ _, _, _, _, _ => rfl
+  | .wild f t b c, _, _, d, hd => by
+    simp only [normalize]; exact wildNormalize_sat env f t b c d
+  | .multi _ _ _ _ _, _, _, _, _ => rfl
+  | .range f lo hi lx hx b c, _, he, d, hd => by
+    simp only [normalize]
+    refine rngNormalize_sat env _ d (hidx d hd) ?_
+    rcases he with he | he
+    · left
+      simp only [emptyOk] at he
+      unfold Rng.openExcl
+      simp only
+      cases h : (lx && (lo == none || lo == some []))
+      · rfl
+      · rw [h] at he; exact absurd he (by simp)
+    · exact Or.inr (he d hd)
+  | .phrase f ws s b, _, _, d, _ => by
     simp only [normalize]; exact phraseNormalize_sat env f ws s b d
-  | .comp k qs b, hc, d, hd => by
+  | .comp k qs b, hc, he, d, hd => by
     simp only [clean, Bool.and_eq_true, Bool.or_eq_true, bne_iff_ne, ne_eq] at hc
     obtain ⟨hcl, hk⟩ := hc
+    have hel : EOkList env qs := by
+      rcases he with he | he
+      · simp only [emptyOk, Bool.and_eq_true] at he; exact Or.inl he.1
+      · exact Or.inr he
+    have hlok : LOk d (flatten k (normalizeList qs)) := by
+      rcases he with he | he
+      · simp only [emptyOk, Bool.and_eq_true] at he; exact LOk_of_all_rangeOk he.2
+      · exact LOk.of_noEmpty (he d hd) _
     simp only [normalize]
-    rw [compNormalize_sat env k _ b d (hidx d hd) (normalizeList_NF qs), sat_comp]
-    · have h1 := normalizeList_sat_aux env hidx qs hcl d hd
+    rw [compNormalize_sat env k _ b d (hidx d hd) hlok (normalizeList_NF qs), sat_comp]
+    · have h1 := normalizeList_sat_aux env hidx qs hcl hel d hd
       cases k <;> simp only [den, normalizeList_isEmpty, h1.1, h1.2]
     · intro hkand
       rcases hk with hk | hk
       · exact absurd hkand hk
       · exact ⟨hk.1.1, hk.1.2, hk.2⟩
-  | .seq c qs s o b, hc, d, _ => by
+  | .seq c qs s o b, hc, _, d, _ => by
     simp only [clean, beq_iff_eq] at hc
     simp only [normalize, hc]
-  | .not q b, hc, d, hd => by
+  | .not q b, hc, he, d, hd => by
     simp only [clean, Bool.and_eq_true, Bool.not_eq_true'] at hc
+    have heq : EOk env q := by
+      rcases he with he | he
+      · simp only [emptyOk] at he; exact Or.inl he
+      · exact Or.inr he
     simp only [normalize, hc.2, Bool.false_eq_true, ↓reduceIte, sat]
-    rw [normalize_sat_aux env hidx q hc.1 d hd]
-  | .bin k a b, hc, d, hd => by
+    rw [normalize_sat_aux env hidx q hc.1 heq d hd]
+  | .bin k a b, hc, he, d, hd => by
     simp only [clean, Bool.and_eq_true] at hc
-    have iha := normalize_sat_aux env hidx a hc.1
-    have ihb := normalize_sat_aux env hidx b hc.2
+    have hea : EOk env a ∧ EOk env b := by
+      rcases he with he | he
+      · simp only [emptyOk, Bool.and_eq_true] at he; exact ⟨Or.inl he.1, Or.inl he.2⟩
+      · exact ⟨Or.inr he, Or.inr he⟩
+    have iha := normalize_sat_aux env hidx a hc.1 hea.1
+    have ihb := normalize_sat_aux env hidx b hc.2 hea.2
     have hnull : ∀ x : Q, x.isNull = true → ∀ d', sat env x d' = false := by
       intro x hx d'
       cases x <;> simp [Q.isNull] at hx
@@ -234,16 +277,20 @@ theorem normalize_sat_aux (env : Env) (hidx : ∀ d ∈ env.index, d.Plain) :
               have := List.any_eq_false.mp hno' d hd
               simpa using this
           · simp only [sat, hany, iha d hd, ihb d hd]
-  | .const _ _, _, _, _ => rfl
-  | .opq _ _, _, _, _ => rfl
-theorem normalizeList_sat_aux (env : Env) (hidx : ∀ d ∈ env.index, d.Plain) :
-    ∀ (qs : List Q), cleanList qs = true → ∀ d ∈ env.index,
+  | .const _ _, _, _, _, _ => rfl
+  | .opq _ _, _, _, _, _ => rfl
+theorem normalizeList_sat_aux (env : Env) (hidx : ∀ d ∈ env.index, d.BelowMax) :
+    ∀ (qs : List Q), cleanList qs = true → EOkList env qs → ∀ d ∈ env.index,
       satAll env (normalizeList qs) d = satAll env qs d ∧ satAny env (normalizeList qs) d = satAny env qs d
-  | [], _, _, _ => ⟨rfl, rfl⟩
-  | q :: qs, hc, d, hd => by
+  | [], _, _, _, _ => ⟨rfl, rfl⟩
+  | q :: qs, hc, he, d, hd => by
     simp only [cleanList, Bool.and_eq_true] at hc
-    have h1 := normalize_sat_aux env hidx q hc.1 d hd
-    have h2 := normalizeList_sat_aux env hidx qs hc.2 d hd
+    have heq : EOk env q ∧ EOkList env qs := by
+      rcases he with he | he
+      · simp only [emptyOkList, Bool.and_eq_true] at he; exact ⟨Or.inl he.1, Or.inl he.2⟩
+      · exact ⟨Or.inr he, Or.inr he⟩
+    have h1 := normalize_sat_aux env hidx q hc.1 heq.1 d hd
+    have h2 := normalizeList_sat_aux env hidx qs hc.2 heq.2 d hd
     simp only [normalizeList, satAll, satAny, h1, h2.1, h2.2, and_self]
 end
 
